@@ -10,19 +10,20 @@ open SST SST.FS SST.DBM SST.Proofs.FS
 
 /-- the calls of `Open`, run to the end, leave exactly the disk the function `recover` computes -/
 theorem recover_events_sound (d : Disk) (h : DiskOk d) (o : Opts) (d' : Disk) (s : State)
-    (hr : recover d o = .ok (d', s)) (junks : List Layer) : applyEvs d (recoverEvents d junks) = d' :=
+    (hr : recover d o = .ok (d', s)) (junks : List (Nat × Layer)) : applyEvs d (recoverEvents d junks) = d' :=
   recover_events d h o d' s hr junks
 
 /-- MAIN THEOREM — for EVERY well-formed disk (every crash image of C02 is one) and EVERY number `m` of calls
 after which the recovery is killed: the disk left behind is again well-formed, a later `Open` succeeds on it and
-serves exactly the content the uninterrupted recovery serves (`junks`: whatever the table written by the recovery
-flush is seen to load as before its metadata is written).  The unlink order inside a `RemoveAll` of a table
+serves exactly the content the uninterrupted recovery serves.  The unlink order inside a `RemoveAll` of a table
 directory does not matter: the abstract states complete → part true → part false → gone that `recoverEvents`
-visits cover every order (an order that removes the metadata first skips the second state), and in each of them
-the table is still listed by the flagged compaction (deleted again) or has no metadata (discarded).  "Same
+visits, plus the state "metadata file unlinked first, index.rio / data.rio still load: a legacy table showing
+`junks g`" inserted by `detour`, cover every order; in each of them the table is still listed by the flagged
+compaction (deleted again), or is discarded, or — an unfinished table seen as a legacy table — is KEPT by the next
+recovery and shows only keys that the log still binds.  "Same
 outcome" is the same CONTENT; the table layout may differ (a second recovery may flush the remaining WAL files
 into one more table). -/
-theorem recover_idempotent_under_crash (d : Disk) (h : DiskOk d) (o o' : Opts) (m : Nat) (junks : List Layer) :
+theorem recover_idempotent_under_crash (d : Disk) (h : DiskOk d) (o o' : Opts) (m : Nat) (junks : List (Nat × Layer)) :
     let dm := applyEvs d ((recoverEvents d junks).take m)
     DiskOk dm ∧ ∃ d1 s1 d2 s2, recover d o = .ok (d1, s1) ∧ recover dm o' = .ok (d2, s2) ∧ abs s2 = abs s1 := by
   intro dm
@@ -34,13 +35,13 @@ theorem recover_idempotent_under_crash (d : Disk) (h : DiskOk d) (o o' : Opts) (
   exact h2
 
 /-- the disk after a sequence of interrupted recovery attempts (attempt i killed after `ms[i].1` calls; `ms[i].2` =
-what the table written by its recovery flush is seen to load as before the metadata is written) -/
-def interrupted : Disk → List (Nat × List Layer) → Disk
+its `junk` assignment) -/
+def interrupted : Disk → List (Nat × List (Nat × Layer)) → Disk
   | d, [] => d
   | d, m :: ms => interrupted (applyEvs d ((recoverEvents d m.2).take m.1)) ms
 
 /-- any number of interrupted attempts is equivalent to none -/
-theorem recover_after_interruptions (d : Disk) (h : DiskOk d) (ms : List (Nat × List Layer)) (o o' : Opts) :
+theorem recover_after_interruptions (d : Disk) (h : DiskOk d) (ms : List (Nat × List (Nat × Layer))) (o o' : Opts) :
     DiskOk (interrupted d ms) ∧
     ∃ d1 s1 d2 s2, recover d o = .ok (d1, s1) ∧ recover (interrupted d ms) o' = .ok (d2, s2) ∧ abs s2 = abs s1 := by
   have key : ∀ ms d, DiskOk d → DiskOk (interrupted d ms) ∧ logical (interrupted d ms) = logical d := by
@@ -71,10 +72,25 @@ def dCompCrash : Disk :=
               { id := 7, out := .complete [([1], some [1]), ([2], some [2])], flag := some { inputs := [1, 2], replacement := 1 } }] }
 
 example : DiskOk dCompCrash := by decide
-example : (recoverEvents dCompCrash).length = 16 := by decide
-example : (List.range 17).all (fun m =>
+example : (recoverEvents dCompCrash).length = 18 := by decide
+example : (List.range 19).all (fun m =>
     let dm := applyEvs dCompCrash ((recoverEvents dCompCrash).take m)
     decide (DiskOk dm) && ([[1], [2], [3], [9]].map (logical dm) == [some [5], some [2], none, none])) = true := by decide
+
+/-- the residual of the "unfinished table kept as a legacy table" defect that the code still has: recovery removes
+an unfinished table (empty metadata file, complete index / data); if the `RemoveAll` unlinks meta.pb.bin first and
+the process is killed right then, the directory has NO metadata file and loads — the next recovery keeps it as a
+legacy table (here showing `[1] ↦ 0x0707`).  The content served stays right (the log still binds its keys), which is
+all C10 claims; the table itself stays for good. -/
+def dUnfinished : Disk :=
+  { tables := [(1, .part false)], walDir := true, wal := [{ num := 0, recs := [.put [1] [9]] }] }
+
+theorem metadata_unlinked_first_keeps_legacy_table :
+    let dm := applyEvs dUnfinished ((recoverEvents dUnfinished [(1, [([1], some [7, 7])])]).take 1)
+    dm.tables = [(1, .complete [([1], some [7, 7])])] ∧ logical dm [1] = some [9] ∧
+      (recover dm).toOption.map (fun r => r.2.tables.map (·.gen)) = some [1, 2] ∧
+      (recover dUnfinished).toOption.map (fun r => r.2.tables.map (·.gen)) = some [1] := by
+  decide
 
 /-- pre-fix D15 (rename BEFORE the other inputs are deleted): the rename takes the flag away, an interruption
 inside the following RemoveAll leaves a half-deleted table nobody cleans up — not well-formed, `Open` fails -/
